@@ -12,23 +12,23 @@ HERE = os.path.dirname(os.path.dirname(os.path.abspath(__file__)))
 
 MUTANTS = [
     # id, check, file, old, new, runs
-    ('C07-backup-cap', 'C07', 'vermouth/file_writer.py', '        while backup_path.exists():', '        while backup_path.exists() and idx < 3:', 1500),
-    ('C07-plus-mode', 'C07', 'vermouth/file_writer.py', "            if 'w' in mode or '+' in mode:  # write", "            if 'w' in mode:  # write", 800),
-    ('C07-move-before-backup', 'C07', 'vermouth/file_writer.py',
+    ('C07-backup-cap', 'C07F', 'vermouth/file_writer.py', '        while backup_path.exists():', '        while backup_path.exists() and idx < 3:', 1500),
+    ('C07-plus-mode', 'C07F', 'vermouth/file_writer.py', "            if 'w' in mode or '+' in mode:  # write", "            if 'w' in mode:  # write", 800),
+    ('C07-move-before-backup', 'C07F', 'vermouth/file_writer.py',
      "                shutil.move(str(final_path), str(free_path))\n            LOGGER.debug('Writing output to {}.', final_path, type='general')\n            shutil.move(tmp_path, str(final_path))",
      "                shutil.copy2(str(final_path), str(free_path))\n            LOGGER.debug('Writing output to {}.', final_path, type='general')\n            os.replace(tmp_path, str(final_path)) if free_path == final_path else shutil.move(tmp_path, str(final_path))", 1500),
-    ('C07-append-truncates', 'C07', 'vermouth/file_writer.py', "        with _open(str(final_path), mode=mode) as final_file,", "        with _open(str(final_path), mode=mode.replace('a', 'w') if os.path.getsize(tmp_path) > 8192 else mode) as final_file,", 1500),
-    ('C07-gate-off-by-one', 'C07', 'bin/martinize2', '    if leftover_warnings:', '    if leftover_warnings > 1:', 120),
-    ('C07-pdb-not-deferred', 'C07', 'bin/martinize2', '    vermouth.pdb.write_pdb(system, str(args.outpath), omit_charges=True)',
+    ('C07-append-truncates', 'C07F', 'vermouth/file_writer.py', "        with _open(str(final_path), mode=mode) as final_file,", "        with _open(str(final_path), mode=mode.replace('a', 'w') if os.path.getsize(tmp_path) > 8192 else mode) as final_file,", 1500),
+    ('C07-gate-off-by-one', 'C07P', 'bin/martinize2', '    if leftover_warnings:', '    if leftover_warnings > 1:', 120),
+    ('C07-pdb-not-deferred', 'C07P', 'bin/martinize2', '    vermouth.pdb.write_pdb(system, str(args.outpath), omit_charges=True)',
      '    vermouth.pdb.write_pdb(system, str(args.outpath), omit_charges=True, defer_writing=len(system.molecules) < 3)', 120),
     ('C12-partial-interaction-removal', 'C12', 'vermouth/molecule.py', '                if node in interaction.atoms:', '                if node in interaction.atoms[:2]:', 500),
     ('C12-charge-group-offset', 'C12', 'vermouth/molecule.py', "            offset_charge_group = self.nodes[last_node_idx].get('charge_group', 1)", "            offset_charge_group = self.nodes[last_node_idx].get('resid', 1)", 500),
     ('C12-copy-aliases-citations', 'C12', 'vermouth/molecule.py', '        new.citations = self.citations.copy()', '        new.citations = self.citations', 1500),
     ('C12-merge-skips-selfkey', 'C12', 'vermouth/molecule.py', '        for idx, node in enumerate(molecule.nodes(), start=offset + 1):', '        for idx, node in enumerate(molecule.nodes(), start=max(offset, len(self)) + 1):', 1500),
-    ('C02-impropers-section', 'C02', 'vermouth/gmx/itp.py', "        if name == 'impropers':", "        if name == 'improperz':", 400),
-    ('C02-params-truncated', 'C02', 'vermouth/gmx/itp.py', "                parameters = ' '.join(str(x) for x in interaction.parameters)", "                parameters = ' '.join(str(x) for x in interaction.parameters[:3])", 400),
-    ('C02-vsn-order', 'C02', 'vermouth/gmx/itp.py', '                    to_join = [atoms[0], parameters] + atoms[1:]', '                    to_join = atoms + [parameters]', 400),
-    ('C02-ifndef-as-ifdef', 'C02', 'vermouth/gmx/itp.py', "    conditional_keys = {True: '#ifdef', False: '#ifndef'}\n    for name in molecule.sort_interactions", "    conditional_keys = {True: '#ifdef', False: '#ifdef'}\n    for name in molecule.sort_interactions", 400),
+    ('C02-impropers-section', 'C02M', 'vermouth/gmx/itp.py', "        if name == 'impropers':", "        if name == 'improperz':", 400),
+    ('C02-params-truncated', 'C02M', 'vermouth/gmx/itp.py', "                parameters = ' '.join(str(x) for x in interaction.parameters)", "                parameters = ' '.join(str(x) for x in interaction.parameters[:3])", 400),
+    ('C02-vsn-order', 'C02M', 'vermouth/gmx/itp.py', '                    to_join = [atoms[0], parameters] + atoms[1:]', '                    to_join = atoms + [parameters]', 400),
+    ('C02-ifndef-as-ifdef', 'C02M', 'vermouth/gmx/itp.py', "    conditional_keys = {True: '#ifdef', False: '#ifndef'}\n    for name in molecule.sort_interactions", "    conditional_keys = {True: '#ifdef', False: '#ifdef'}\n    for name in molecule.sort_interactions", 400),
     ('C03-count-off-by-one', 'C03', 'vermouth/gmx/topology.py', '        moltype_count.append([moltype, 1 + len(list(molecules))])', '        moltype_count.append([moltype, max(1, len(list(molecules)))])', 150),
     ('C03-dedup-ignores-interactions', 'C03', 'vermouth/molecule.py', '            self.same_edges(other) and\n            self.same_interactions(other)\n        )\n\n    # TODO: Allow comparison', '            self.same_edges(other)\n        )\n\n    # TODO: Allow comparison', 200),
     ('C03-pdb-node-order', 'C03', 'vermouth/pdb/pdb.py', '        for node_idx in molecule.sorted_nodes:', '        for node_idx in molecule.nodes:', 200),
